@@ -411,6 +411,7 @@ def run(tier):
     rule_R13(res, prog)
     rule_R14(res, prog)
     rule_R15(res, prog)
+    rule_R16(res, prog)
     rule_R1e(res, prog)
     return res.finish()
 
@@ -1149,3 +1150,57 @@ def rule_R15(res, prog):
                                  "expired is accepted again for SSL_SESSION_ENTRY_LIFE every 49.7 days" % (fn.relfile, ln, why), file=fn.relfile, line=ln)
                 res.instance(rid, "psDiffMsecs:%s narrowing return is range-checked" % ln, ok, finding=f_)
     res.floor(rid, 1)
+
+
+def rule_R16(res, prog):
+    """'resumption only with ... state ... presented in THIS hello': after a HelloRetryRequest the client sends a new
+    ClientHello, and whether that one carries a usable PSK is decided from that one alone.  On every path on which the server
+    writes a HelloRetryRequest (tls13WriteServerHello(.., isHelloRetryRequest = true)) the PSK selection made from the first
+    ClientHello is forgotten first: tls13UsingPsk = false, tls13ChosenPsk = NULL and tls13BindersLen = 0 are all stored.  A
+    left-over chosen PSK is used for the second ClientHello although that named an identity the server does not know and no
+    binder was verified."""
+    from sa import cfgutil as cu
+    rid = "C14.R16"
+    res.rule(rid, "TLS 1.3 HelloRetryRequest: the PSK selected from the first ClientHello is forgotten (usingPsk, chosenPsk, bindersLen)")
+    lst = prog.by_name.get("tls13EncodeResponseServer")
+    if not lst:
+        if prog.defined("USE_TLS_1_3"):
+            raise AnalysisBroken("C14.R16: tls13EncodeResponseServer vanished")
+        res.floor(rid, 0)
+        return
+    fn = lst[0]
+
+    def is_hrr_write(x):
+        for m in walk(x):
+            if m.get("k") == "call" and m.get("fn") == "tls13WriteServerHello" and len(m.get("a", [])) >= 3:
+                a = strip(m["a"][2])
+                while a is not None and a.get("k") == "cast":
+                    a = strip(a["e"])
+                if a is not None and a.get("k") == "int" and a["v"] != 0:
+                    return True
+        return False
+
+    def clears(field):
+        def t(x):
+            for m in walk(x):
+                if m.get("k") == "bin" and m["op"] == "=" and cu.ftext(strip(m["l"]) or {}) == field:
+                    r = strip(m["r"])
+                    while r is not None and r.get("k") == "cast":
+                        r = strip(r["e"])
+                    if r is not None and r.get("k") == "int" and r["v"] == 0:
+                        return True
+            return False
+        return t
+    n = 0
+    for field in ("ssl->sec.tls13UsingPsk", "ssl->sec.tls13ChosenPsk", "ssl->sec.tls13BindersLen"):
+        n += 1
+        esc = cu.escapes(fn, (fn.entry, None), clears(field), target_expr=is_hrr_write)
+        f_ = None
+        if esc is not None:
+            f_ = Finding(PROP, rid, fn.name, "PSK state of the first ClientHello survives the HelloRetryRequest",
+                         "%s:%s tls13EncodeResponseServer(): the HelloRetryRequest is written (via lines %s) without %s having been cleared: the "
+                         "second ClientHello may name an identity the server does not know (no binder is verified then), and the server still "
+                         "answers with pre_shared_key and resumes with the PSK chosen from the FIRST ClientHello" % (
+                             fn.relfile, esc[-1][1], [p_[1] for p_ in esc[-5:]], field), file=fn.relfile, line=esc[-1][1])
+        res.instance(rid, "tls13EncodeResponseServer: %s cleared before a HelloRetryRequest is written" % field, esc is None, finding=f_)
+    res.floor(rid, 3)
